@@ -217,15 +217,23 @@ def gen_scenarios(spec, rng, n):
                 oid2 = f"o{seq}"
                 seq += 1
                 op2 = gen_op(spec, rng, codec, fs, s, m, cls, oid2, client)
-                op2["request"] = op["request"]
                 op2["form"] = "msg"
-                op2["reuse_of"] = oid
+                if rng.random() < 0.5:
+                    op2["request"] = op["request"]
+                    op2["reuse_of"] = oid          # the same object, same values
+                else:
+                    # the same object EDITED IN PLACE to other values ("one request, set parent, call again") while the
+                    # first pager may still be iterating: that pager must go on with the values it was called with
+                    op2["mutate_of"] = oid
+                    op2["request"].pop("page_token", None)
                 op2["call"] = dict(op.get("call") or {})
                 # faults of op2 were drawn against its own call options; redraw with op's
                 op2["faults"] = gen_faults(rng, spec, fs, s, m, op2["call"], len(op2["pages"]))
                 if client == "rest":
+                    keep = op2["request"]
                     _restify(spec, rng, fs, s, m, op2)
-                    op2["request"] = op["request"]
+                    if op2.get("reuse_of"):
+                        op2["request"] = op["request"]
                 if rng.random() < 0.5 and not op.get("stop_after"):
                     total = sum(_page_len(p, cls) for p in op["pages"])
                     op["nested"] = {"after": rng.randint(0, total), "op": op2}
